@@ -271,6 +271,13 @@ def mutate(
     else:
         # No exception was caught, so write the output file(s)
 
+        # Serialize and encode everything before opening any file for
+        # writing, so a simfile that can't be saved leaves the files intact
+        output_data = str(simfile)
+        errors = kwargs.get("errors") or "strict"
+        backup_data.encode(encoding, errors)
+        output_data.encode(encoding, errors)
+
         # Write backup file if requested
         if backup_filename:
             with filesystem.open(
@@ -282,4 +289,4 @@ def mutate(
         with filesystem.open(
             output_filename or input_filename, "w", encoding=encoding, **kwargs
         ) as writer:
-            simfile.serialize(cast(TextIO, writer))
+            writer.write(output_data)
